@@ -179,6 +179,7 @@ def build(rng, base=None):
                     desc["events"].append("terminal-oxygen-only-in-later-models")
         # a metal site that holds another ion in each model (one chain and residue number, different residue names)
         ion_site = None
+        ion_gap = 0
         if rng.random() < 0.15:
             from . import fragments
             names_ = rng.sample(("ZN", "MG", "CA", "MN", "CU"), min(k, 3))
@@ -193,6 +194,7 @@ def build(rng, base=None):
                     for r_ in frag_:
                         r_.x, r_.y, r_.z = first_.x, first_.y, first_.z
                 ion_site = [site[nm_] for nm_ in sorted(site)]
+                ion_gap = rng.choice((0, 1, 1, k))       # with three or more models: the site is empty in the first / last one
                 desc["events"].append("another-ion-on-one-site-in-each-model")
         for m in range(1, k + 1):
             out.append(pdbio.raw("MODEL     %4d" % m))
@@ -232,7 +234,7 @@ def build(rng, base=None):
                     if m > 1 and a.aname() not in ("N", "CA", "C", "O"):
                         a = jitter(a, rng)
                     out.append(a)
-            if ion_site is not None:
+            if ion_site is not None and not (k >= 3 and m == ion_gap):
                 out.extend(r_.copy() for r_ in ion_site[(m - 1) % len(ion_site)])
             out.append(pdbio.raw("ENDMDL"))
         return out, desc
